@@ -58,6 +58,19 @@ impl SessionHistory {
         Ok(())
     }
 
+    /// Verification hook: `save` with the destination replaced by an arbitrary writer.
+    #[cfg(feature = "verif-hooks")]
+    pub fn save_to_writer(
+        &self,
+        w: impl io::Write,
+        dst: impl AsRef<Path>,
+        options: SessionHistoryOptions,
+    ) -> Result<(), Box<RuntimeErrorKind>> {
+        let dst = dst.as_ref();
+        let err_fn = |_: io::Error| RuntimeErrorKind::FileWrite(dst.to_owned());
+        self.save_inner(w, options, err_fn)
+    }
+
     pub fn save(
         &self,
         dst: impl AsRef<Path>,
